@@ -72,6 +72,7 @@ type Beh struct {
 	ID    int               `json:"id"`
 	Kind  string            `json:"kind"` // word | edge | sim | attack:<guard> | random
 	Steps []json.RawMessage `json:"steps"`
+	Big   int               `json:"big,omitempty"` // connwrite: frames of the "several frames" payload (0: two)
 }
 
 func readBehs(path string) ([]Beh, error) {
